@@ -4,3 +4,5 @@ pub mod transport_eng;
 pub mod vfs_eng;
 #[cfg(not(feature = "asyncio"))]
 pub mod ptfs_eng;
+#[cfg(not(feature = "asyncio"))]
+pub mod escape_eng;
